@@ -15,6 +15,10 @@ def search(ctx):
     corpus (one program per clause of the statement and per class: written order of
     record fields, field targets) first, then generated
     programs; every difference is minimised to a small script + arguments."""
+    if ctx.impl_violations:
+        # the quick run (class representatives first) already has concrete failing inputs
+        ctx.log(f"search skipped: {len(ctx.impl_violations)} failing inputs already found")
+        return
     if ctx.build_harness("c08"):
         ctx.harness("c08", ["run", ctx.seed + 15485863, "search"], timeout=6000, name="search:c08")
 
@@ -42,14 +46,19 @@ def run(ctx):
         "whole programs: the quantifier over programs and inputs is sampled (differential run of the real compiled "
         "script against the Lean trace function); type checker, LIR lowering, Cranelift and the host ABI are exercised, not modelled",
         "the host functions log every call (function id, argument values) into one ordered log; their results are the "
-        "pure functions `hostSem` gives",
+        "pure functions `hostSem` gives; the registered host type `Tok` logs in its `to_string`, `peek` and `PartialEq::eq` "
+        "(the calls the compiler inserts implicitly for an f-string part / for `==`), not in Clone/Drop",
     ]
     return ctx.finish(
         level="proof",
-        rule="99 hand-written programs run first (16: one per clause of the statement; 36: a record literal in each of the six "
-             "orders of its three fields x six shapes; 12: a field as target of (compound) assignment / left operand, per field; "
+        rule="244 hand-written programs run first (16: one per clause of the statement; 48: host calls the compiler inserts "
+             "implicitly — f-strings with 2 and 3 interpolated parts x every tuple of part kinds {host value with a logging to_string, "
+             "effectful call, block with effect}, `==`/`!=` on host values; 45: a bare variable / field path as a constructor component "
+             "that a later component assigns, per constructor kind; 88: a record literal of R, P (two fields), G[T], H[T] in every "
+             "order of its fields x shapes; 12: a field as target of (compound) assignment / left operand, per field; "
              "35: match, pattern variant x examinee variant, one named variant + `_` and a guarded `_` between two variants) "
-             "+ type-directed generated programs (record literals in a random written order, typed or anonymous) whose "
+             "+ type-directed generated programs (record literals in a random written order, typed or anonymous, of four record "
+             "types; host values in f-string parts, under ==/!=, as method receivers) whose "
              "sub-expressions at every position call logging host functions, x 8 argument tuples each; a class is "
              "distinct by program text with >= 1 non-empty agreeing trace, or by position signature "
              "(parent construct, child index, effectful child construct)",
